@@ -1,5 +1,6 @@
 (* C06, reader against specification: the superblock (versions 0, 2, 3).
-   REFUTATIONS.  ReadSuperblock (Model/CodecSuper.v dec_superblock, tied to the Go code by C11/C07) takes the fields of
+   REFUTATIONS, for the code before notes/fixes/c06-superblock-sizes.patch (Model/CodecSuper.v dec_superblock_gen false; the
+   ties of C11/C07 compare the Go code with the variant the source tree under test implements).  That ReadSuperblock takes the fields of
    a version 0 superblock from fixed file positions (64, 80, 88: right only for 8-byte offsets), and in a version 2/3
    superblock reads byte 9 (the specification's size of offsets) as a flags byte, byte 10 (the specification's size of
    lengths) as the size of offsets, and sets the size of lengths to 8.  So a specification-conformant superblock whose
@@ -20,7 +21,7 @@ Definition spec_view (bs : bytes) : outcome (N * N * N * N * N) :=
   '(s, _, _) <- spec_dec_superblock strict bs;;
   Ok (sbs_version s, sbs_O s, sbs_L s, sbs_base s, sbs_root s).
 Definition reader_view (bs : bytes) : outcome (N * N * N * N * N) :=
-  s <- dec_superblock bs;;
+  s <- dec_superblock_gen false bs;;
   Ok (spp_version s, spp_offsize s, spp_lensize s, spp_base s, spp_root s).
 
 (* 8-byte offsets, 4-byte lengths (H5Pset_sizes(fcpl, 8, 4)), root group at 48: the reader reports 4-byte offsets,
